@@ -323,7 +323,7 @@ def _reslice_child(args):
     probs = []
     shared = {}
     for sl in seqs:
-        req = dict(kind=kind, depth=64, blk=16, slices=list(sl), acc=acc, dt="int8", per_channel=True, wzp=0, k=(3, 3), ic=8, dil=(1, 1), wseed=3, bseed=0)
+        req = dict(kind=kind, depth=sl[-1], blk=16, slices=list(sl), acc=acc, dt="int8", per_channel=True, wzp=0, k=(3, 3), ic=8, dil=(1, 1), wseed=3, bseed=0)
         try:
             w, s_, wt, bt, op = c08.encode(req, shared)
             pr = c08.judge(req, w, s_, wt, bt)
@@ -333,7 +333,9 @@ def _reslice_child(args):
     return probs
 
 
-RESLICE = [[(0, 16, 48, 64), (0, 16, 32, 48, 64)], [(0, 16, 32, 48, 64), (0, 16, 48, 64)], [(0, 32, 64), (0, 32, 48, 64), (0, 64)], [(0, 16, 64), (0, 16, 32, 64), (0, 16, 32, 48, 64)]]
+RESLICE = [[(0, 16, 48, 64), (0, 16, 32, 48, 64)], [(0, 16, 32, 48, 64), (0, 16, 48, 64)], [(0, 32, 64), (0, 32, 48, 64), (0, 64)], [(0, 16, 64), (0, 16, 32, 64), (0, 16, 32, 48, 64)],
+           # OFM depths that do not divide among two cores (the cores' shares of a slice differ by one channel), a one-channel last slice included
+           [(0, 16, 49), (0, 16, 32, 49), (0, 49)], [(0, 17), (0, 16, 17)], [(0, 32, 33), (0, 16, 33)]]
 
 
 def replay(ctx, case):
